@@ -24,7 +24,7 @@ CLAIMED = {
         "error, not silently rounded: defect F12, fixed); the Bin whose address a getter/setter requests carries every index of the "
         "piece asked for (segment, view or axial position, TOF index) in its own slot, and a getter builds the piece it returns from "
         "the same indices; every whole-data operation of ProjData (fill, sum, extrema, norms, xapyb/sapyb, arithmetic) requests, inside its "
-        "loop over the segments, the segment of the TOF bin of an enclosing loop over all TOF bins; in the projection-data header the scale factor and the bed positions are written with max_digits10 digits (defect F35, fixed), values of list-valued keys are in the reader's list and information-losing formatting changes of the header stream are put back; a segment number passed to a public get_* member of the two backing stores is tested against the segment range (directly or by a helper whose every exit has made the test) before it indexes the per-segment tables (F66, fixed); every exam-information key or helper of the image header writer also appears in the projection-data header writer (F67, fixed); every path through the positioning helpers checked_seekg/checked_seekp passes the seek (an independent reader drops its read-ahead on every access). Value round trips, byte order, number-type conversion and the other header values are NOT decided.",
+        "loop over the segments, the segment of the TOF bin of an enclosing loop over all TOF bins; in the projection-data header the scale factor and the bed positions are written with max_digits10 digits (defect F35, fixed), values of list-valued keys are in the reader's list and information-losing formatting changes of the header stream are put back; a segment number passed to a public get_* member of the two backing stores is tested against the segment range (directly or by a helper whose every exit has made the test) before it indexes the per-segment tables (F66, fixed); every exam-information key or helper of the image header writer also appears in the projection-data header writer (F67, fixed); every path through the positioning helpers checked_seekg/checked_seekp passes the seek (an independent reader drops its read-ahead on every access); a caller-supplied segment or TOF sequence is validated before it is stored (F96, fixed), a header member the reader hands to a setter of the data object has its key emitted by the writer (F97, fixed), and the writer's switch covers every storage order (F98, fixed). Value round trips, byte order, number-type conversion and the other header values are NOT decided.",
         technique="static analysis: must-facts dataflow over clang CFG (bounds), symbolic layout algebra on the address expression, "
         "must-pass-through (flush), resolved-callee provenance",
     ),
